@@ -277,45 +277,15 @@ bool Instance::eval(const size_t argc, char* const* argv) {
         const size_t vlen = strlen(v);
         // empty strings are ignored
         if (!v[0]) continue;
-        // number?
-        int n = atoi(v);
-        if (n != 0) {
-            // verify
-            char buf[vlen + 1];
-            snprintf(buf, vlen + 1, "%d", n);
-            if (!strcmp(buf, v)) {
-                // verified; is it > 3 chars and can it be a hexstring too?
-                if (vlen > 3 && !(vlen & 1)) {
-                    std::vector<unsigned char> pushData;
-                    if (TryHex(v, pushData)) {
-                        // it can; warn about using 0x for hex
-                        if (VALUE_WARN) btc_logf("warning: ambiguous input %s is interpreted as a numeric value; use 0x%s to force into hexadecimal interpretation\n", v, v);
-                    }
-                }
-                // can it be an opcode too?
-                if (n < 16) {
-                    if (VALUE_WARN) btc_logf("warning: ambiguous input %s is interpreted as a numeric value (%s), not as an opcode (OP_%s). Use OP_%s to force into op code interpretation\n", v, v, v, v);
-                }
-
-                script << (int64_t)n;
-                continue;
-            }
+        // the tokens are read the way the tokens of a script are (decimal numbers of any size, opcode names, hex with or
+        // without 0x, inline expressions) and pushed in the same - minimal - form, so that `exec` runs the operations the
+        // script compiler would have produced for them
+        Value val(v, vlen);
+        if (val.type == Value::T_STRING) {
+            fprintf(stderr, "error: invalid opcode %s\n", v);
+            return false;
         }
-        // hex string?
-        if (!(vlen & 1)) {
-            std::vector<unsigned char> pushData;
-            if (TryHex(v, pushData)) {
-                script << pushData;
-                continue;
-            }
-        }
-        opcodetype opc = GetOpCode(v);
-        if (opc != OP_INVALIDOPCODE) {
-            script << opc;
-            continue;
-        }
-        fprintf(stderr, "error: invalid opcode %s\n", v);
-        return false;
+        val >> script;
     }
     CScript::const_iterator it = script.begin();
     // the executed operations live in a temporary script: an OP_CODESEPARATOR among them must not leave the
